@@ -153,7 +153,11 @@ func (r *Run) hook(point string, a ...any) {
 	switch point {
 	case "pre.take", "pre.done", "arch.take", "arch.done", "post.take", "post.closed", "fin.feedback":
 		seed := a[0].(*models.Item)
-		r.tr.Emit(map[string]any{"ev": point, "id": seed.GetID(), "w": a[1], "st": seed.GetStatus().String(), "tree": project(seed)})
+		ev := map[string]any{"ev": point, "id": seed.GetID(), "w": a[1], "st": seed.GetStatus().String(), "tree": project(seed)}
+		if point == "pre.take" {
+			ev["via"], ev["raw"] = seed.GetSeedVia(), seed.GetURL().Raw
+		}
+		r.tr.Emit(ev)
 	case "post.done":
 		seed := a[0].(*models.Item)
 		outs := []map[string]any{}
@@ -196,11 +200,13 @@ func (r *Run) hook(point string, a ...any) {
 		r.tr.Emit(map[string]any{"ev": point, "u": urlName(item.GetURL()), "seed": item.GetSeed().GetID()})
 	case "lq.claim":
 		ids := []string{}
+		rows := []map[string]any{}
 		for _, u := range a[0].([]sqlc_model.Url) {
 			ids = append(ids, u.ID)
+			rows = append(rows, map[string]any{"id": u.ID, "value": u.Value, "via": u.Via, "hops": u.Hops})
 		}
 		if len(ids) > 0 {
-			r.tr.Emit(map[string]any{"ev": point, "ids": ids})
+			r.tr.Emit(map[string]any{"ev": point, "ids": ids, "urls": rows})
 		}
 	case "lq.delete":
 		ids := []string{}
